@@ -21,8 +21,8 @@ import numpy as np
 from harness import common
 from harness.common import engine_run, coq_crosscheck
 
-TARGETS = ["theories/Props/C19.vo", "theories/Proofs/GenEq_ConfigTables.vo"]
-GENEQ = {"theories/Proofs/GenEq_ConfigTables.vo": "ConfigTables"}
+TARGETS = ["theories/Props/C19.vo", "theories/Proofs/GenEq_ConfigTables.vo", "theories/Proofs/GenEq_Groups.vo"]
+GENEQ = {"theories/Proofs/GenEq_ConfigTables.vo": "ConfigTables", "theories/Proofs/GenEq_Groups.vo": "Groups"}
 ALLOWED_AXIOMS = []
 RULE = ("cases = evaluator configurations as constructor arguments: corpus first; every field varied away from its "
         "default singly (3 input types, approximator none/default/cc3d/scipy, threshold matcher x 5 metrics x thresholds "
@@ -660,6 +660,17 @@ def rand_groups(rng, cover=True):
     rng.shuffle(pool)
     n = rng.randint(1, 4)
     names = rng.sample(NAMES, n)
+    if form == "dict" and n >= 2 and rng.random() < 0.25:
+        # two keys that the constructor maps to one group name (case / int vs str): the later entry replaces
+        # the earlier one, and the earlier one's labels must be gone from the original as they are from the copy
+        i, j = rng.sample(range(n), 2)
+        base = names[i]
+        if base.startswith("#"):
+            names[j] = base[1:]
+        elif base.swapcase() != base:
+            names[j] = base.swapcase()
+        elif base.upper() != base:
+            names[j] = base.upper()
     entries = []
     small = [1, 2, 3, 4, 5]
     rng.shuffle(small)
@@ -1066,6 +1077,8 @@ def run(ctx):
                 owners.append((comp, {"shipped": path.name}, sxv, tree))
 
     by_name_layer(ctx, p, rng)
+    group_ctor_layer(ctx, p, rng, triples_src)
+    ctx.layers.append({"layer": "class-group constructor on user dictionaries (keys folding to one name) against Model/GroupCtor.v", "exhaustive": False})
     ctx.layers.append({"layer": "by-name save/load, one name reused for three configurations", "exhaustive": False})
     # model: batch per op
     by_op = {}
@@ -1100,6 +1113,84 @@ def run(ctx):
                                       "distinct_outcomes_per_probe": {k: len(v) for k, v in sigs.items()}}
 
 
+def group_ctor_layer(ctx, p, rng, triples_src):
+    """SegmentationClassGroups(dict) against Model/GroupCtor.v (engine op 1905): the dictionary kept (names, order, groups), the labels
+    the object answers for, and the dictionary of the object rebuilt from it -- on user dictionaries whose keys fold to one name."""
+    import io, contextlib
+    pool = ["a", "A", "lesion", "Lesion", "LESION", "b", "B", 7, "7", 12, "12", "x_1", "X_1", "group_0", "Group_0", "z", ""]
+    cases, reqs = [], []
+    for _ in range(ctx.scale(80, 800)):
+        n = rng.randint(1, 5)
+        keys = []
+        while len(keys) < n:
+            k = rng.choice(pool)
+            if all(not (k == q and type(k) is type(q)) for q in keys):
+                keys.append(k)
+        small = list(range(1, 12))
+        rng.shuffle(small)
+        d, spec, entries = {}, [], []
+        for k in keys:
+            single = rng.random() < 0.25
+            ls = [small.pop()] if single or len(small) < 3 else [small.pop() for _ in range(rng.randint(1, 2))]
+            if rng.random() < 0.15:
+                ls = ls + [rng.choice([1, 2, 3])]                 # the same label in two groups only prints a warning
+                single = False
+            kind = rng.choice(["plain", "plain", "merge", "tuple"])
+            e = [k, kind, ls, single]
+            try:
+                g = p.LabelGroup(ls, single) if kind == "tuple" else build_lgroup(p, e)
+            except Exception:
+                continue
+            d[k] = (ls, single) if kind == "tuple" else g
+            spec.append([k if isinstance(k, str) else {"int": k}, kind, ls, single])
+            entries.append([s_str(str(k))] + s_lgroup(g))
+        if not d:
+            continue
+        with contextlib.redirect_stdout(io.StringIO()):
+            try:
+                obj = p.SegmentationClassGroups(d)
+                gd = vars(obj)["_SegmentationClassGroups__group_dictionary"]
+                again = p.SegmentationClassGroups(dict(gd))
+                gd2 = vars(again)["_SegmentationClassGroups__group_dictionary"]
+                got = [[[[s_str(k)] + s_lgroup(v) for k, v in gd.items()]], [int(x) for x in obj.labels],
+                       [[[s_str(k)] + s_lgroup(v) for k, v in gd2.items()]]]
+                probe = {"labels_original": [int(x) for x in obj.labels], "labels_rebuilt": [int(x) for x in again.labels],
+                         "keys_original": list(gd), "keys_rebuilt": list(gd2)}
+            except Exception as ex:
+                got, probe = ["raised", type(ex).__name__], None
+        folded = len({str(k).lower() for k in d}) < len(d)
+        ctx.count({"group_ctor": spec}, folded)
+        ctx.bump("class-group constructor / " + ("keys folding to one name" if folded else "distinct names"))
+        if probe and (probe["labels_original"] != probe["labels_rebuilt"] or probe["keys_original"] != probe["keys_rebuilt"]):
+            ctx.violation(f"class groups rebuilt from their own dictionary differ: names {probe['keys_original']} -> {probe['keys_rebuilt']}, "
+                          f"labels answered for {probe['labels_original']} -> {probe['labels_rebuilt']}", {"kind": "group-ctor", "spec": spec, **probe})
+        cases.append((spec, got))
+        reqs.append(entries)
+    outs = engine_run(1905, reqs) if reqs else []
+    for (spec, got), x, o in zip(cases, reqs, outs):
+        triples_src.append((1905, x, o))
+        if norm_sx(got) != norm_sx(o):
+            ctx.disagree("GroupCtor.ctor_dict", {"component": "group-ctor", "spec": spec, "detail": first_diff(norm_sx(got), norm_sx(o))})
+
+
+def replay_group_ctor(p, d):
+    import io, contextlib
+    user = {}
+    for k, kind, ls, single in d["spec"]:
+        key = k["int"] if isinstance(k, dict) else k
+        user[key] = (ls, single) if kind == "tuple" else build_lgroup(p, [key, kind, ls, single])
+    with contextlib.redirect_stdout(io.StringIO()):
+        obj = p.SegmentationClassGroups(user)
+        again = p.SegmentationClassGroups(dict(vars(obj)["_SegmentationClassGroups__group_dictionary"]))
+    print("user dictionary:", d["spec"])
+    print("constructed: names", obj.keys(), "labels answered for", [int(x) for x in obj.labels])
+    print("rebuilt from its own dictionary: names", again.keys(), "labels answered for", [int(x) for x in again.labels])
+    bad = obj.keys() != again.keys() or list(obj.labels) != list(again.labels)
+    if bad:
+        print("VIOLATION: class groups rebuilt from their own dictionary differ")
+    return 1 if bad else 0
+
+
 def replay(path):
     common.serial_pool()
     p = P()
@@ -1108,6 +1199,8 @@ def replay(path):
     with tempfile.TemporaryDirectory(prefix="c19r_") as tmp:
         if d.get("kind") in ("by-name", "by-name-sweep"):
             return replay_by_name(d)
+        if d.get("kind") == "group-ctor":
+            return replay_group_ctor(p, d)
         if d.get("kind") == "shipped":
             out = Outcome()
             f = common.REPO / "panoptica" / "configs" / d["file"]
